@@ -9,6 +9,7 @@
     [HashMap]); a host inside the collection is identified by the index of the
     builder call that added it. *)
 From KV Require Export Bytes.
+From KV Require Http1Read.
 Open Scope N_scope.
 
 (** ------------------------------------------------------------------------------
@@ -382,6 +383,28 @@ Definition reference_general (ops : list op) (sni host_header : option bytes) : 
                  (if loopback_form n then match hs with [] => None | h :: _ => own (h_name h) end else None)))
   end.
 
+(** The administrative lookups, in terms of the configuration alone.
+    [clear_page(name, ..)] / [clear_file(name, ..)]: [""] and ["default"] mean the default host, any other
+    name the owner of exactly that name (no trailing dot, no default, no loopback rule). *)
+Definition is_default_name (name : bytes) : bool := beq name [] || beq name s_default.
+Definition clear_reference (ops : list op) (name : bytes) : option nat :=
+  let hs := map snd ops in
+  if is_default_name name then
+    match default_index O ops with
+    | Some d => match nth_error hs d with Some h => option_map hid (owner O hs (h_name h)) | None => None end
+    | None => None
+    end
+  else option_map hid (owner O hs name).
+(** [clear_response_caches(filter)] / [clear_file_caches(filter)] reach host [i] iff it is still reachable
+    under its own name (no later host took the name over) and its name passes the filter. *)
+Definition cleared_by_all (ops : list op) (flt : option bytes) (i : nat) : bool :=
+  match nth_error (map snd ops) i with
+  | Some h =>
+      match flt with Some f => beq f (h_name h) | None => true end
+      && match owner O (map snd ops) (h_name h) with Some r => Nat.eqb (hid r) i | None => false end
+  | None => false
+  end.
+
 (** ==============================================================================
     The multi-host server: a product of per-host states.  [serve i] is host [i]'s whole
     pipeline (extensions, file cache, response cache) on its own component; [route] is
@@ -482,10 +505,44 @@ Section Server.
   Definition spec_serve (i : nat) (s : St) (r : srequest) : St * Rep := serve i s (snd r).
 End Server.
 
+(** ---- [get_from_request] with the authority of the request URI ------------------------------
+    After the third [fix:] commit of this round ([fix_auth = true]) a request without a (textual)
+    [host] header is looked up by the authority of its URI: HTTP/2 and HTTP/3 requests carry the
+    requested host in [:authority].  [get_from_request] above is the case of a URI without
+    authority (the requests the harness hands to [Collection::get_from_request] directly). *)
+(** [headers.get(header::HOST).map(HeaderValue::to_str).and_then(Result::ok)] *)
+Definition text_hd (host_headers : list bytes) : option bytes :=
+  match host_headers with [] => None | hv :: _ => hv_to_str hv end.
+Definition get_from_request_uri (fix_auth : bool) (v : version) (c : collection) (sni : option bytes)
+           (host_headers : list bytes) (authority : option bytes) : outcome (option host) :=
+  let host :=
+    match sni with
+    | Some s => Some s
+    | None => first_some (text_hd host_headers) (if fix_auth then authority else None)
+    end in
+  get_option_or_default v c host.
+
+Definition choose_host_uri (fix_auth : bool) (v : version) (c : collection) (sni : option bytes)
+           (host_headers : list bytes) (authority : option bytes) : outcome choice :=
+  match get_from_request_uri fix_auth v c sni host_headers authority with
+  | Panic => Panic
+  | Err e => Err e
+  | Ok None => Ok Refuse409
+  | Ok (Some h) =>
+      match get_host v c (hname h) with
+      | Ok (Some h') => Ok (ServeWith h')
+      | Ok None => Panic                         (* [.unwrap()] *)
+      | Err e => Err e
+      | Panic => Panic
+      end
+  end.
+
 (** ---- a concrete instance for the correspondence over loopback connections -------------
     Every host has a handler for the paths starting with [/h] that answers its own marker
-    and the number of times it was invoked, a response cache keyed by path, and its own
-    files (other paths; reply [(i, 0)]). *)
+    and the number of times it was invoked (response cache on: [FatResponse::cache], i.e.
+    [ServerCachePreference::Full], the query is not part of the key; only GET and HEAD are
+    looked up and stored; [if-modified-since] on a stored entry: 304), and its own files
+    (other paths, GET only; reply [(i, 0)]). *)
 Record hstate := { hs_cache : list (bytes * N); hs_count : N }.
 Definition hstate0 : hstate := {| hs_cache := []; hs_count := 0 |}.
 Fixpoint cache_get (p : bytes) (l : list (bytes * N)) : option N :=
@@ -493,22 +550,34 @@ Fixpoint cache_get (p : bytes) (l : list (bytes * N)) : option N :=
   | [] => None
   | (k, v) :: r => if beq k p then Some v else cache_get p r
   end.
-(** reply: (host id, invocation number that produced the body) *)
-(** [ServerCachePreference::Full]: the query is discarded in the cache key. *)
 Fixpoint path_only (p : bytes) : bytes :=
   match p with
   | [] => []
   | c :: r => if N.eqb c 63 then [] else c :: path_only r
   end.
-Definition marker_serve (i : nat) (s : hstate) (path : bytes) : hstate * (nat * N) :=
-  if negb (starts_with [47; 104] path) then (s, (i, 0))      (* not "/h...": a file of host [i] *)
+
+(** What the client of a history sees. *)
+Inductive wire_reply :=
+| WClosed                     (* connection closed, nothing sent *)
+| WNoTls                      (* the TLS handshake was refused *)
+| W409
+| W304
+| W200 (host : nat) (n : N).  (* marker: the host that answered, the invocation that produced the body *)
+
+Definition s_GET : bytes := Eval vm_compute in B "GET".
+Definition s_HEAD : bytes := Eval vm_compute in B "HEAD".
+Definition get_or_head_b (m : bytes) : bool := beq m s_GET || beq m s_HEAD.
+Definition FL_IMS_FUTURE : N := 1.     (* bit 1 of the request flags: if-modified-since far in the future *)
+
+Definition marker_serve (i : nat) (s : hstate) (m path : bytes) (flags : N) : hstate * wire_reply :=
+  if negb (starts_with [47; 104] path) then (s, W200 i 0)      (* not "/h...": a file of host [i] *)
   else
   let key := path_only path in
-  match cache_get key (hs_cache s) with
-  | Some n => (s, (i, n))
+  match (if get_or_head_b m then cache_get key (hs_cache s) else None) with
+  | Some n => (s, if N.testbit flags FL_IMS_FUTURE then W304 else W200 i n)
   | None =>
       let n := hs_count s + 1 in
-      ({| hs_cache := (key, n) :: hs_cache s; hs_count := n |}, (i, n))
+      ({| hs_cache := if get_or_head_b m then (key, n) :: hs_cache s else hs_cache s; hs_count := n |}, W200 i n)
   end.
 
 (** [parse::headers] builds the header map with [HeaderMap::insert]: of several Host
@@ -519,55 +588,113 @@ Definition wire_hosts (hh : list bytes) : list bytes :=
   | h :: _ => [h]
   end.
 
-(** One HTTP/1.1 request on a plain-TCP connection ([sni = None]): what the client sees.
-    [accept] (kvarn_async::read::request) fails with [NoHost] — the connection is closed
-    without an answer — when there is no Host header and no default host.  *)
-Inductive wire_reply :=
-| WClosed                     (* connection closed, nothing sent *)
-| W409
-| W200 (host : nat) (n : N).
+(** One request of a history: the connection it travels on (plain TCP with HTTP/1.x, TLS with
+    HTTP/1.1, TLS with HTTP/2; the SNI the client sent, if any) and what it says. *)
+Definition TR_PLAIN : N := 0.  Definition TR_TLS1 : N := 1.  Definition TR_H2 : N := 2.
+Record wreq := mkW {
+  w_tr : N;
+  w_sni : option bytes;
+  w_v10 : bool;                  (* HTTP/1.0 request line *)
+  w_method : bytes;
+  w_hosts : list bytes;          (* HTTP/1.x: the Host header lines; HTTP/2: explicit [host] fields *)
+  w_authority : option bytes;    (* HTTP/2: [:authority] *)
+  w_path : bytes;
+  w_flags : N }.
+Definition w_tls (r : wreq) : bool := negb (w_tr r =? TR_PLAIN).
+Definition w_conn_sni (r : wreq) : option bytes := if w_tls r then w_sni r else None.
 
-Definition conn_request (v : version) (c : collection) (st : nat -> hstate) (host_headers : list bytes) (path : bytes)
-  : outcome ((nat -> hstate) * wire_reply) :=
-  match host_headers, c_default c with
-  | [], None => Ok (st, WClosed)
-  | _, _ =>
-      match choose_host v c None (wire_hosts host_headers) with
-      | Panic => Panic
-      | Err e => Err e
-      | Ok Refuse409 => Ok (st, W409)
-      | Ok (ServeWith h) =>
-          let i := hid h in
-          let (s', rep) := marker_serve i (st i) path in
-          Ok (upd st i s', W200 (fst rep) (snd rep))
-      end
-  end.
+(** The repairs of this round; [false] = the code before the repair. *)
+Record fixes := mkFixes {
+  fx_nohost : bool;      (* a request without host header (and without default host) gets a URI without authority *)
+  fx_authority : bool;   (* only a valid authority becomes part of the URI *)
+  fx_h2auth : bool }.    (* [get_from_request] falls back on the URI's authority *)
+Definition fixed : fixes := mkFixes true true true.
+Definition snapshot : fixes := mkFixes false false false.
 
-Fixpoint conn_history (v : version) (c : collection) (st : nat -> hstate) (reqs : list (list bytes * bytes))
-  : list (outcome wire_reply) :=
-  match reqs with
-  | [] => []
-  | (hh, p) :: rest =>
-      match conn_request v c st hh p with
-      | Ok (st', r) => Ok r :: conn_history v c st' rest
-      | Err e => Err e :: conn_history v c st rest
-      | Panic => Panic :: conn_history v c st rest
-      end
-  end.
+Section Wire.
+  (** [http::uri::Authority::try_from(bytes).is_ok()] — behaviour of the crate [http], external. *)
+  Variable auth_ok : bytes -> bool.
+
+  (** [kvarn_async::read::request] (src/application.rs has a copy): the Host value is the last
+      Host line or, without one, the default host's name; it becomes the authority of the URI.
+      Result: the [host] header values of the request and the authority of its URI, or [None]:
+      the request is not accepted and the connection is closed without an answer.
+      Before the repairs: [NoHost] without a value; a value which is not an authority makes the
+      URI invalid ([InvalidPath]) — faithful for values without '/', '?', '#', which move part
+      of the value into the path instead.  After them: without a usable value the URI is the
+      request target alone, if that is in origin form (starts with '/'); else [NoHost] as before. *)
+  Definition h1_accept (fx : fixes) (c : collection) (hh : list bytes) (target : bytes) : option (list bytes * option bytes) :=
+    let origin_form := starts_with [47] target in
+    match (match wire_hosts hh with h :: _ => Some h | [] => c_default c end) with
+    | None => if fx_nohost fx && origin_form then Some (wire_hosts hh, None) else None
+    | Some h =>
+        if auth_ok h then Some (wire_hosts hh, Some h)
+        else if fx_authority fx && origin_form then Some (wire_hosts hh, None) else None
+    end.
+
+  (** [ResolvesServerCert::resolve] for [Collection]: the handshake succeeds iff
+      [get_option_or_default(client_hello.server_name())] finds a host (every host of a history
+      has a certificate). *)
+  Definition tls_accepts (c : collection) (sni : option bytes) : bool :=
+    match get_option_or_default V1 c sni with
+    | Ok (Some _) => true
+    | _ => false
+    end.
+
+  Definition wire_request (fx : fixes) (c : collection) (st : nat -> hstate) (r : wreq)
+    : outcome ((nat -> hstate) * wire_reply) :=
+    if w_tls r && negb (tls_accepts c (w_sni r)) then Ok (st, WNoTls)
+    else
+    match (if w_tr r =? TR_H2 then Some (w_hosts r, w_authority r) else h1_accept fx c (w_hosts r) (w_path r)) with
+    | None => Ok (st, WClosed)
+    | Some (hh, authority) =>
+        match choose_host_uri (fx_h2auth fx) V1 c (w_conn_sni r) hh authority with
+        | Panic => Panic
+        | Err e => Err e
+        | Ok Refuse409 => Ok (st, W409)
+        | Ok (ServeWith h) =>
+            let i := hid h in
+            let (s', rep) := marker_serve i (st i) (w_method r) (w_path r) (w_flags r) in
+            Ok (upd st i s', rep)
+        end
+    end.
+
+  Fixpoint wire_history (fx : fixes) (c : collection) (st : nat -> hstate) (reqs : list wreq)
+    : list (outcome wire_reply) :=
+    match reqs with
+    | [] => []
+    | r :: rest =>
+        match wire_request fx c st r with
+        | Ok (st', rep) => Ok rep :: wire_history fx c st' rest
+        | Err e => Err e :: wire_history fx c st rest
+        | Panic => Panic :: wire_history fx c st rest
+        end
+    end.
+End Wire.
 
 (** The specification of such a history: the multi-host server above with the reference
-    resolver as routing function and the marker handlers as per-host [serve]. *)
-Definition conn_serve (i : nat) (s : hstate) (r : list bytes * bytes) : hstate * wire_reply :=
-  let (s', rep) := marker_serve i s (snd r) in (s', W200 (fst rep) (snd rep)).
-Definition conn_route (ops : list op) (r : list bytes * bytes) : option nat :=
-  reference_general ops None (hd_error (wire_hosts (fst r))).
-Fixpoint conn_spec (ops : list op) (st : nat -> hstate) (reqs : list (list bytes * bytes)) : list wire_reply :=
+    resolver as routing function and the marker handlers as per-host [serve].  The Host header
+    of a request: HTTP/1.x — the last Host line; HTTP/2 — the first [host] field if it is text,
+    else [:authority]. *)
+Definition wire_host_header (r : wreq) : option bytes :=
+  if w_tr r =? TR_H2 then first_some (text_hd (w_hosts r)) (w_authority r)
+  else hd_error (wire_hosts (w_hosts r)).
+Definition wire_serve (i : nat) (s : hstate) (r : wreq) : hstate * wire_reply :=
+  marker_serve i s (w_method r) (w_path r) (w_flags r).
+Definition wire_route (ops : list op) (r : wreq) : option nat :=
+  reference_general ops (w_conn_sni r) (wire_host_header r).
+Fixpoint wire_spec (ops : list op) (st : nat -> hstate) (reqs : list wreq) : list wire_reply :=
   match reqs with
   | [] => []
   | r :: rest =>
-      let (st', rep) := rstep hstate (list bytes * bytes) wire_reply conn_serve (conn_route ops) W409 st r in
-      rep :: conn_spec ops st' rest
+      let (st', rep) := rstep hstate wreq wire_reply wire_serve (wire_route ops) W409 st r in
+      rep :: wire_spec ops st' rest
   end.
+
+(** Known class tls-handshake-refused: over TLS the certificate — and with it whether the
+    handshake succeeds at all — is chosen by the SNI alone, before any request is read. *)
+Definition tls_refused (ops : list op) (r : wreq) : bool :=
+  w_tls r && match reference_general ops (w_sni r) None with None => true | Some _ => false end.
 
 (** ==============================================================================
     xval interface. *)
@@ -591,7 +718,8 @@ Definition x_hostres (r : outcome (option host)) : xval :=
              (L (N 3))                           get_default
              (L (N 4) name)                      clear_page / clear_file target
              (L (N 5) (L [filter]))              clear_*_caches targets (sorted ids)
-             (L (N 6) (L [sni]) (L hosthdr...))  handle_connection's choice *)
+             (L (N 6) (L [sni]) (L hosthdr...))  handle_connection's choice
+             (L (N 7) (L [sni]) (L hosthdr...) authority)  get_from_request, the URI has this authority *)
 Fixpoint insert_sorted (n : nat) (l : list nat) : list nat :=
   match l with
   | [] => [n]
@@ -604,6 +732,11 @@ Definition run_query (v : version) (c : collection) (q : xval) : xval :=
   | XL [XN 0; sni; hh] =>
       match d_option d_B sni, d_list d_B hh with
       | Some sni, Some hh => x_hostres (get_from_request v c sni hh)
+      | _, _ => bad_input
+      end
+  | XL [XN 7; sni; hh; XB authority] =>
+      match d_option d_B sni, d_list d_B hh with
+      | Some sni, Some hh => x_hostres (get_from_request_uri true v c sni hh (Some authority))
       | _, _ => bad_input
       end
   | XL [XN 1; XB name] => x_hostres (get_host v c name)
@@ -659,6 +792,23 @@ Definition run_spec_query (ops : list op) (q : xval) : xval :=
           XL [XN k; x_ref r]
       | _, _ => bad_input
       end
+  (* get_host: the owner of exactly this name; get_or_default: the reference resolver on the name;
+     get_default; clear_page / clear_file; clear_*_caches: the ids reached, ascending *)
+  (* get_from_request on a request whose URI has an authority: the Host header if it is text, else the authority *)
+  | XL [XN 7; sni; hh; XB authority] =>
+      match d_option d_B sni, d_list d_B hh with
+      | Some sni, Some hh => XL [XN 7; x_ref (reference_general ops sni (first_some (text_hd hh) (Some authority)))]
+      | _, _ => bad_input
+      end
+  | XL [XN 1; XB name] => XL [XN 1; x_ref (option_map hid (owner O (map snd ops) name))]
+  | XL [XN 2; XB name] => XL [XN 2; x_ref (reference_general ops (Some name) None)]
+  | XL [XN 3] => XL [XN 3; x_ref (reference_general ops None None)]
+  | XL [XN 4; XB name] => XL [XN 4; x_ref (clear_reference ops name)]
+  | XL [XN 5; f] =>
+      match d_option d_B f with
+      | Some f => XL [XN 5; x_list x_nat (List.filter (cleared_by_all ops f) (seq O (length ops)))]
+      | None => bad_input
+      end
   | _ => XL []
   end.
 Definition at_most_one_default (ops : list op) : bool :=
@@ -674,26 +824,53 @@ Definition run_lookup_spec (x : xval) : xval :=
   | _ => bad_input
   end.
 
-(** component input: (L ops (L (L (L hosthdr...) path) ...)): a history of HTTP/1.1
-    requests over plain TCP against one server. *)
+(** component input: (L hosts (L req ...)): a history of requests over loopback connections
+    against one server; hosts = (L (L default name (L alt...) opts) ...), [opts] says how the
+    harness constructs the [Host] (no effect on the model);
+    req = (L transport sni v10 method (L hosthdr...) authority path flags). *)
 Definition x_wire (r : outcome wire_reply) : xval :=
   x_outcome (fun w => match w with
                       | WClosed => XL [XN 0]
+                      | WNoTls => XL [XN 1]
                       | W409 => XL [XN 409]
+                      | W304 => XL [XN 304]
                       | W200 h n => XL [XN 200; x_nat h; XN n]
                       end) r.
-Definition d_req (x : xval) : option (list bytes * bytes) :=
+Definition d_whost (x : xval) : option op :=
   match x with
-  | XL [hh; XB path] => option_map (fun hh => (hh, path)) (d_list d_B hh)
+  | XL [d; XB name; alts; XN _] => d_hostcfg (XL [d; XB name; alts])
   | _ => None
   end.
-Definition run_conn (x : xval) : xval :=
+(** what the clients of the harness can put on the wire, and what the marker model covers: *)
+Definition c_upper (c : N) : bool := (65 <=? c) && (c <=? 90).
+Definition dns_char (c : N) : bool :=
+  ((97 <=? c) && (c <=? 122)) || ((48 <=? c) && (c <=? 57)) || (c =? 45) || (c =? 46).
+Definition d_wreq (x : xval) : option wreq :=
   match x with
-  | XL [ops; reqs] =>
-      match d_ops ops, d_list d_req reqs with
+  | XL [XN tr; sni; v10; XB m; hh; auth; XB path; XN flags] =>
+      match d_option d_B sni, d_bool v10, d_list d_B hh, d_option d_B auth with
+      | Some sni, Some v10, Some hh, Some auth =>
+          if (tr <=? 2)
+             && negb ((tr =? 0) && match sni with Some _ => true | None => false end)
+             && negb ((tr =? 2) && (v10 || match auth with None => true | Some _ => false end))
+             && negb (negb (tr =? 2) && match auth with Some _ => true | None => false end)
+             && negb (N.testbit flags 1 && N.testbit flags 2) && (flags <? 8)
+             && starts_with [47] path && (starts_with [47; 104] path || (beq m s_GET && (flags <? 2)))
+          then Some (mkW tr sni v10 m hh auth path flags) else None
+      | _, _, _, _ => None
+      end
+  | _ => None
+  end.
+(** [Authority::try_from] in the executable model: the transcription of the crate's parser made for C07
+    (Model/Http1Read.v [authority_ok]) *)
+Definition auth_ok_http : bytes -> bool := Http1Read.authority_ok.
+Definition run_wire (x : xval) : xval :=
+  match x with
+  | XL [hosts; reqs] =>
+      match d_list d_whost hosts, d_list d_wreq reqs with
       | Some ops, Some reqs =>
           match build ops with
-          | Ok c => XL [XN 0; XL (map x_wire (conn_history V1 c (fun _ => hstate0) reqs))]
+          | Ok c => XL [XN 0; XL (map x_wire (wire_history auth_ok_http fixed c (fun _ => hstate0) reqs))]
           | Err e => XL [XN 1; XN e]
           | Panic => XL [XN 2]
           end
@@ -702,22 +879,60 @@ Definition run_conn (x : xval) : xval :=
   | _ => bad_input
   end.
 
-Definition run_conn_spec (x : xval) : xval :=
+Definition run_wire_spec (x : xval) : xval :=
   match x with
-  | XL [ops; reqs] =>
-      match d_ops ops, d_list d_req reqs with
+  | XL [hosts; reqs] =>
+      match d_list d_whost hosts, d_list d_wreq reqs with
       | Some ops, Some reqs =>
           if at_most_one_default ops
-          then XL [XN 0; XL (map (fun w => x_wire (Ok w)) (conn_spec ops (fun _ => hstate0) reqs))]
+          then XL [XN 0; XL (map (fun w => x_wire (Ok w)) (wire_spec ops (fun _ => hstate0) reqs));
+                   XL (map (fun r => x_bool (tls_refused ops r)) reqs)]
           else XL [XN 2]
       | _, _ => bad_input
       end
   | _ => bad_input
   end.
 
+(** component hosts.wire2: (L hosts (L history ...)): one client per history, all running concurrently against the
+    same server.  Only for histories that are routed to pairwise disjoint sets of hosts (otherwise the replies
+    depend on the schedule): by Properties/C15.v [wire_concurrent_clients] every client then sees, in every
+    interleaving, what it would see alone. *)
+Definition wire_touches (ops : list op) (reqs : list wreq) (i : nat) : bool :=
+  existsb (fun r => match wire_route ops r with Some j => Nat.eqb j i | None => false end) reqs.
+Definition hosts_touched (ops : list op) (reqs : list wreq) : list nat :=
+  flat_map (fun r => match wire_route ops r with Some i => [i] | None => [] end) reqs.
+Definition disjointb (a b : list nat) : bool := forallb (fun x => negb (existsb (Nat.eqb x) b)) a.
+Fixpoint pairwise_disjoint (l : list (list nat)) : bool :=
+  match l with
+  | [] => true
+  | a :: r => forallb (disjointb a) r && pairwise_disjoint r
+  end.
+Definition run_wire2_with (f : list op -> list wreq -> xval) (x : xval) : xval :=
+  match x with
+  | XL [hosts; XL hs] =>
+      match d_list d_whost hosts, d_all (d_list d_wreq) hs with
+      | Some ops, Some hs' =>
+          if negb (pairwise_disjoint (map (hosts_touched ops) hs')) then bad_input
+          else if negb (at_most_one_default ops) then XL [XN 2]
+          else XL [XN 0; XL (map (f ops) hs')]
+      | _, _ => bad_input
+      end
+  | _ => bad_input
+  end.
+Definition run_wire2 : xval -> xval :=
+  run_wire2_with (fun ops reqs =>
+    match build ops with
+    | Ok c => XL (map x_wire (wire_history auth_ok_http fixed c (fun _ => hstate0) reqs))
+    | _ => bad_input
+    end).
+Definition run_wire2_spec : xval -> xval :=
+  run_wire2_with (fun ops reqs => XL (map (fun w => x_wire (Ok w)) (wire_spec ops (fun _ => hstate0) reqs))).
+
 Definition hosts_table : list (bytes * (xval -> xval)) :=
   [ (B "hosts.lookup", run_lookup);
     (B "hosts.lookup_v0", run_lookup_v0);
     (B "hosts.spec", run_lookup_spec);
-    (B "hosts.conn", run_conn);
-    (B "hosts.conn_spec", run_conn_spec) ].
+    (B "hosts.wire", run_wire);
+    (B "hosts.wire_spec", run_wire_spec);
+    (B "hosts.wire2", run_wire2);
+    (B "hosts.wire2_spec", run_wire2_spec) ].
